@@ -236,6 +236,7 @@ func c01Shapes(c *fw.Ctx, idx int) {
 	}
 	// (e) a coordinate of the wrong length must be rejected, not stored
 	c01WrongLength(c, g)
+	c01WrongLengthMulti(c, g)
 	// (f) SetCoords again on the same object: other sizes, then coordinates that
 	// alias the geometry's own storage (taken from Coord(i)) in another order
 	if t != nil && layout != geom.NoLayout {
@@ -423,6 +424,129 @@ func c01WrongLength(c *fw.Ctx, g *model.G) {
 	}
 	if sm.Got != badLen || sm.Want != stride {
 		c.Fail("wrong-error", "stride-mismatch error reports got=%d want=%d, expected got=%d want=%d", sm.Got, sm.Want, badLen, stride)
+	}
+	if t != nil && !isNilGeom(t) {
+		c.Fail("stored-bad-coordinate", "SetCoords returned both an error and a geometry")
+	}
+}
+
+// c01WrongLengthMulti injects two or three coordinates of wrong length whose
+// lengths compensate (their total is a whole number of coordinates), next to
+// each other or apart, into one line/ring or into two different ones: every one
+// of them is "a coordinate whose length does not match the layout", so the
+// whole SetCoords must be rejected with a stride-mismatch error naming one of
+// the injected lengths, however the total adds up.
+func c01WrongLengthMulti(c *fw.Ctx, g *model.G) {
+	r := c.R
+	stride := g.Layout.Stride()
+	if stride < 1 || g.Kind == model.Point {
+		return
+	}
+	bad := g.Clone()
+	// the innermost coordinate lists of the geometry
+	var lines []*[][]float64
+	switch bad.Kind {
+	case model.LineString, model.LinearRing, model.MultiPoint:
+		lines = append(lines, &bad.C1)
+	case model.Polygon, model.MultiLineString:
+		if len(bad.C2) == 0 {
+			bad.C2 = [][][]float64{{}}
+		}
+		for i := range bad.C2 {
+			lines = append(lines, &bad.C2[i])
+		}
+	case model.MultiPolygon:
+		if len(bad.C3) == 0 {
+			bad.C3 = [][][][]float64{{{}}}
+		}
+		for i := range bad.C3 {
+			if len(bad.C3[i]) == 0 {
+				bad.C3[i] = [][][]float64{{}}
+			}
+			for j := range bad.C3[i] {
+				lines = append(lines, &bad.C3[i][j])
+			}
+		}
+	}
+	if len(lines) == 0 {
+		return
+	}
+	// compensating lengths: (stride+k, stride-k), or (stride+1, stride+1, stride-2), ...
+	var lens []int
+	switch r.Intn(4) {
+	case 0:
+		k := 1 + r.Intn(stride)
+		lens = []int{stride + k, stride - k}
+	case 1:
+		k := 1 + r.Intn(stride)
+		lens = []int{stride - k, stride + k}
+	case 2:
+		if stride >= 2 {
+			lens = []int{stride + 1, stride + 1, stride - 2}
+		} else {
+			lens = []int{stride + 1, stride - 1}
+		}
+	default:
+		// total is a multiple of the stride without being "the same number of coordinates"
+		lens = []int{2 * stride, stride + 1, stride - 1}
+	}
+	if bad.Kind == model.MultiPoint {
+		// a zero-length member of a MultiPoint is an empty point, not a bad coordinate
+		for i, l := range lens {
+			if l == 0 {
+				lens[i] = 2 * stride
+			}
+		}
+	}
+	sameLine := r.Chance(2, 3) || len(lines) == 1
+	l0 := lines[r.Intn(len(lines))]
+	adjacent := r.Bool()
+	pos := r.Intn(len(*l0) + 1)
+	for i, bl := range lens {
+		bc := make([]float64, bl)
+		for k := range bc {
+			bc[k] = float64(100 + 10*i + k)
+		}
+		ln := l0
+		if !sameLine {
+			ln = lines[r.Intn(len(lines))]
+		}
+		p := pos
+		if !adjacent || !sameLine {
+			p = r.Intn(len(*ln) + 1)
+		} else if p > len(*ln) {
+			p = len(*ln)
+		}
+		*ln = append((*ln)[:p:p], append([][]float64{bc}, (*ln)[p:]...)...)
+	}
+	c.SetInput(map[string]any{"geometry": bad.String(), "injected_lengths": lens, "stride": stride})
+	var t geom.T
+	var err error
+	if c.Guard("panic", func() { t, err = buildNoEmptyPoint(bad) }) {
+		return
+	}
+	c.Eval(1)
+	c.Count("wrong_length_injected_multi")
+	if sameLine {
+		c.Count("wrong_length_compensating_in_one_line")
+	}
+	if err == nil {
+		c.Fail("stored-bad-coordinate", "coordinates of lengths %v were accepted by a geometry of stride %d", lens, stride)
+		return
+	}
+	var sm geom.ErrStrideMismatch
+	if !errors.As(err, &sm) {
+		c.Fail("wrong-error", "coordinates of lengths %v in stride %d: error %T %q is not a stride-mismatch error", lens, stride, err, err)
+		return
+	}
+	okGot := false
+	for _, l := range lens {
+		if sm.Got == l {
+			okGot = true
+		}
+	}
+	if !okGot || sm.Want != stride {
+		c.Fail("wrong-error", "stride-mismatch error reports got=%d want=%d, expected got in %v want=%d", sm.Got, sm.Want, lens, stride)
 	}
 	if t != nil && !isNilGeom(t) {
 		c.Fail("stored-bad-coordinate", "SetCoords returned both an error and a geometry")
